@@ -28,6 +28,8 @@ type C04Scenario struct {
 	NAcc     int      `json:"n_acc"`
 	PreSeed  bool     `json:"pre_seed"` // pairing already in the store (skip pair-setup)
 	Others   int      `json:"others"`   // other controllers already stored
+	Retry    bool     `json:"retry"`    // with WrongPin: the same controller then enters the right code on the same connection
+	Pipeline bool     `json:"pipeline"` // requests are pipelined: the head of the next request is sent before the previous response is read
 	Reqs     []C04Req `json:"reqs"`
 	Sched    []uint16 `json:"sched"`
 }
@@ -44,6 +46,8 @@ func genC04(rt *rapid.T) interface{} {
 			}
 		}
 	}
+	sc.Retry = sc.WrongPin != "" && rapid.Bool().Draw(rt, "retry")
+	sc.Pipeline = rapid.IntRange(0, 3).Draw(rt, "pipeline") == 0
 	sc.CtlID = genCtlID(rt, "id")
 	sc.NAcc = rapid.IntRange(1, 6).Draw(rt, "nacc")
 	sc.PreSeed = sc.WrongPin == "" && rapid.IntRange(0, 2).Draw(rt, "preseed") == 0
@@ -83,6 +87,7 @@ func runC04(t *testing.T, sci interface{}) *Outcome {
 		var fail, failSig string
 		done := false
 		paired := sc.PreSeed
+		retried := false
 		reqsDone := 0
 		violate := func(sig, f string, a ...interface{}) {
 			if fail == "" {
@@ -107,10 +112,25 @@ func runC04(t *testing.T, sci interface{}) *Outcome {
 				if sc.WrongPin != "" {
 					if r.ErrorCode != 2 || r.ErrorState != 4 {
 						violate("wrongcode", "wrong setup code answered with error %d in state %d, want error 2 in M4", r.ErrorCode, r.ErrorState)
+						return
 					}
-					return
+					if !sc.Retry {
+						return
+					}
+					// the user corrects the code: a second attempt on the same connection
+					w.Sim.Count("probe.retry_after_wrong_code")
+					r, err = cl.PairSetup(fmtPin(sc.Pin), sc.CtlID, kp)
+					if err != nil {
+						violate("retry-after-wrong-code", "the right setup code after a wrong one on the same connection: %v", err)
+						return
+					}
+					if r.ErrorCode != 0 {
+						violate("retry-after-wrong-code", "the right setup code after a wrong one on the same connection is answered with error %d in state %d", r.ErrorCode, r.ErrorState)
+						return
+					}
+					retried = true
 				}
-				if r.ErrorCode != 0 {
+				if r.ErrorCode != 0 && !retried {
 					violate("setup-error", "pair-setup with the right code answered error %d in state %d", r.ErrorCode, r.ErrorState)
 					return
 				}
@@ -136,6 +156,65 @@ func runC04(t *testing.T, sci interface{}) *Outcome {
 			}
 			if !ok {
 				violate("verify-refused", "pair-verify of a paired controller refused")
+				return
+			}
+			if sc.Pipeline && len(sc.Reqs) > 1 {
+				// HTTP/1.1 pipelining: each request's first half is on the wire before the previous response was read
+				w.Sim.Count("probe.pipelined_requests")
+				var raws [][]byte
+				for _, rq := range sc.Reqs {
+					switch rq.Kind {
+					case "acc":
+						raws = append(raws, ref.Request("GET", "/accessories", "", nil))
+					case "get":
+						raws = append(raws, ref.Request("GET", "/characteristics?id=1.2", "", nil))
+					default:
+						var ents []string
+						for k := 0; k < rq.N; k++ {
+							ents = append(ents, `{"aid":1,"iid":2,"value":true}`)
+						}
+						raws = append(raws, ref.Request("PUT", "/characteristics", ref.CTypeJSON, []byte(`{"characteristics":[`+strings.Join(ents, ",")+`]}`)))
+					}
+				}
+				w.Step("ctl", "pipeline first")
+				if err := cl.Send(raws[0]); err != nil {
+					violate("req-pipeline", "send: %v", err)
+					return
+				}
+				for i := range raws {
+					var rest []byte
+					if i+1 < len(raws) {
+						// the next request is framed as two writes: its first half goes out now
+						next := raws[i+1]
+						w.Step("ctl", "pipeline head of next")
+						if err := cl.Send(next[:len(next)/2]); err != nil {
+							violate("req-pipeline", "send: %v", err)
+							return
+						}
+						rest = next[len(next)/2:]
+					}
+					m, err := cl.Recv()
+					if err != nil {
+						violate("req-pipeline", "pipelined request %d (%s): %v", i, sc.Reqs[i].Kind, err)
+						return
+					}
+					want := 200
+					if sc.Reqs[i].Kind == "put" {
+						want = 204
+					}
+					if m.Status != want {
+						violate("req-pipeline-status", "pipelined request %d (%s): status %d, want %d", i, sc.Reqs[i].Kind, m.Status, want)
+						return
+					}
+					reqsDone++
+					if rest != nil {
+						w.Step("ctl", "pipeline rest of next")
+						if err := cl.Send(rest); err != nil {
+							violate("req-pipeline", "send: %v", err)
+							return
+						}
+					}
+				}
 				return
 			}
 			for i, rq := range sc.Reqs {
@@ -203,7 +282,7 @@ func runC04(t *testing.T, sci interface{}) *Outcome {
 			violate("db", "Entities(): %v", err)
 		}
 		if fail == "" {
-			if sc.WrongPin != "" {
+			if sc.WrongPin != "" && !retried {
 				if len(after) != len(before) {
 					violate("wrongcode-stored", "a wrong setup code changed the stored pairings: %d -> %d", len(before), len(after))
 				}
